@@ -129,10 +129,13 @@ func (o *oracle) txnMetricsSnapshot() metrics.TxnMetrics {
 
 func (o *oracle) readTs() uint64 {
 	readTs := o.nextTxnTs.Load() - 1
+	utils.VerifYield("txn.read.next", readTs)
 	if last := o.txnMark.LastIndex(); last < readTs {
 		readTs = last
 	}
+	utils.VerifYield("txn.read.last", readTs)
 	o.readMark.Begin(readTs)
+	utils.VerifYield("txn.read.begun", readTs)
 
 	// Wait for all txns which have no conflicts, have been assigned a commit
 	// timestamp and are going through the write to value log and LSM tree
@@ -177,6 +180,7 @@ func (o *oracle) hasConflict(txn *Txn) bool {
 }
 
 func (o *oracle) newCommitTs(txn *Txn) (uint64, bool) {
+	utils.VerifYield("txn.commit.lock")
 	o.Lock()
 	defer o.Unlock()
 
@@ -189,9 +193,11 @@ func (o *oracle) newCommitTs(txn *Txn) (uint64, bool) {
 
 	// This is the general case, when user doesn't specify the read and commit ts.
 	ts := o.nextTxnTs.Add(1) - 1
+	utils.VerifYield("txn.commit.ts", ts)
 
 	utils.AssertTrue(ts >= o.lastCleanupTs)
 	o.txnMark.Begin(ts)
+	utils.VerifYield("txn.commit.begun", ts)
 
 	if o.detectConflicts {
 		// We should ensure that txns are not added to o.committedTxns slice when
@@ -637,6 +643,7 @@ func (txn *Txn) commitAndSend() (func() error, error) {
 		// Wait before marking commitTs as done.
 		// We can't defer doneCommit above, because it is being called from a
 		// callback here.
+		utils.VerifYield("txn.commit.done", commitTs)
 		orc.doneCommit(commitTs)
 		return err
 	}
